@@ -13,6 +13,9 @@ INPUTS = {
     "shared": [{"left": {"item": {"sku": "s", "qty": 1, "w": 1.5}, "l": 1}, "right": {"item": {"sku": "t", "qty": 2, "w": 2.5}, "r": "x"}}],
     "lists": [{"rows": [{"n": "1", "v": None}, {"n": "2", "v": "x", "extra": {"deep": True}}], "name": "n"}],
     "clash": [{"class": 1, "user-name": "u", "list": [{"id": 1}]}],
+    # object-valued keys whose class / field names are reserved in SOME framework only (a name conversion that is written back
+    # into the shared registry by one framework's generator would leak into the next render)
+    "reserved": [{"config": {"a": 1}, "json": {"b": "x"}, "copy": [{"c": 1.5}], "field": {"d": True}, "validate": 1, "schema": "s"}],
 }
 _REF = {}
 
@@ -125,11 +128,13 @@ def scen_history(ch, params, out):
 def parts(tier):
     if tier == "quick":
         return [CH("history3", "vflib.props.c14:scen_history", {"calls": 3, "inputs": ["simple", "shared"], "frameworks": ["pydantic", "dataclasses"]},
+                   shards=16, timeout=170, path_timeout=60),
+                CH("history3_reserved_names", "vflib.props.c14:scen_history", {"calls": 3, "inputs": ["reserved"], "frameworks": ["pydantic", "dataclasses", "attrs"]},
                    shards=16, timeout=170, path_timeout=60)]
-    return [CH("history3", "vflib.props.c14:scen_history", {"calls": 3, "inputs": ["simple", "shared", "lists", "clash"], "frameworks": ["pydantic", "dataclasses", "attrs"]},
-               shards=16, timeout=3000, path_timeout=60),
+    return [CH("history3", "vflib.props.c14:scen_history", {"calls": 3, "inputs": ["simple", "shared", "lists", "clash", "reserved"], "frameworks": ["pydantic", "dataclasses", "attrs"]},
+               shards=16, timeout=900, path_timeout=60),
             CH("history4", "vflib.props.c14:scen_history", {"calls": 4, "inputs": ["shared", "clash"], "frameworks": ["pydantic", "attrs"]},
-               shards=16, timeout=3000, path_timeout=60)]
+               shards=16, timeout=900, path_timeout=60)]
 
 
 META = {
